@@ -43,7 +43,8 @@
    links of the sentinel's entry to the root of the next addition, which is wrong when one
    addition holds the sentinel more than once, when the addition is undone, and when a node that
    holds the sentinel is added or occurs more than once. *)
-From Clvm Require Import Model.Incremental Proofs.BackRefEmit Proofs.IncrementalUndo Proofs.IncrementalSalt.
+From Clvm Require Import Model.Incremental Proofs.BackRefEmit Proofs.IncrementalUndo Proofs.IncrementalSalt
+  Proofs.IncrementalDecode Proofs.IncrementalWitness.
 Open Scope N_scope.
 
 (* ---- (1) undo *)
@@ -68,6 +69,63 @@ Theorem C19_restore_truncates : forall s live u s0, reach s live -> In (u, s0) l
   is_prefix (get_ref (restore u s)) (get_ref s) /\
   get_ref (restore u s) = firstn (N.to_nat (u_pos u)) (get_ref s).
 Proof. exact restore_truncates. Qed.
+
+(* ---- (2) decode, at the format level of C17.
+   reach_ok: the states reachable by add (valid oracle, atoms byte-valued) and restore of any live
+   undo state, together with the additions that are retained; orc_valid: every answer of the
+   oracle is a path that denotes, in the list of the trees on the parse stack, the tree of the
+   node being written; assembled A T: T is the first addition with every sentinel replaced, left
+   to right, by the next addition (whose own sentinels are replaced first). *)
+Theorem C19_decode : forall s A live orc node u s', reach_ok s A live ->
+  orc_valid orc -> wf_stree node = true -> add orc s node = Ok (true, u, s') ->
+  exists T, assembled (A ++ [node]) T /\ tc_stk s' = [T] /\ read_ops s' = [] /\
+            enc PT [] T (get_ref s').
+Proof. exact decode_complete. Qed.
+
+Theorem C19_decode_both : forall s A live orc node u s' rest, reach_ok s A live ->
+  orc_valid orc -> wf_stree node = true -> add orc s node = Ok (true, u, s') ->
+  exists T, assembled (A ++ [node]) T /\
+    de_br_spec (get_ref s' ++ rest) = Ok (T, rest) /\
+    snd (node_from_stream_backrefs (get_ref s' ++ rest)) = Ok (T, rest) /\
+    snd (node_from_stream_backrefs_old (get_ref s' ++ rest)) = Ok (T, rest) /\
+    serialized_length_from_bytes (get_ref s' ++ rest) = Ok (size s') /\
+    into_inner s' = Ok (get_ref s').
+Proof. exact decode_both. Qed.
+
+(* the same for a completed state reached in any way (for instance by a restore) *)
+Theorem C19_decode_at_rest : forall s A live, reach_ok s A live -> read_ops s = [] ->
+  exists T, assembled A T /\ tc_stk s = [T] /\ enc PT [] T (get_ref s).
+Proof. exact decode_at_rest. Qed.
+
+(* add reports completion exactly when nothing is left to read; the invariant of every state at
+   rest (no panic site of the model has been passed) *)
+Theorem C19_done_iff : forall s A live orc node d u s', reach_ok s A live ->
+  orc_valid orc -> wf_stree node = true -> add orc s node = Ok (d, u, s') ->
+  (d = true <-> read_ops s' = []).
+Proof.
+  intros s A live orc node d u s' Hr Hv Hw Ha.
+  exact (proj2 (add_dec orc s node d u s' A Hv Hw (proj1 (reach_ok_inv s A live Hr)) Ha)).
+Qed.
+
+(* the reachable states of the decode theorem are reachable states of the undo theorem *)
+Theorem C19_reach_ok_reach : forall s A live, reach_ok s A live -> reach s (forget live).
+Proof. exact reach_ok_reach. Qed.
+
+(* the executable assemble agrees with the relation *)
+Theorem C19_assemble : forall adds t, assemble adds = Some t -> assembled adds t.
+Proof. exact assemble_assembled. Qed.
+
+(* the premises are satisfiable by an oracle that emits back-references: "the top of the stack" *)
+Theorem C19_decode_witness :
+  orc_valid top_orc /\ orc_valid (fun _ _ => None) /\
+  add top_orc ser_new w_n0 = Ok (false, w_u1, w_s1) /\
+  reach_ok w_s1 ([] ++ [w_n0]) [(w_u1, ser_new, [])] /\
+  add top_orc w_s1 w_x = Ok (true, w_u2, w_s2) /\
+  get_ref w_s2 = [255; 132; 1; 2; 3; 4; 254; 2] /\
+  assembled [w_n0; w_x] (Cons (Atom [1; 2; 3; 4]) (Atom [1; 2; 3; 4])).
+Proof.
+  exact (conj top_orc_valid (conj none_orc_valid (conj w_step1 (conj w_reach (conj w_step2 (conj w_bytes w_assembled)))))).
+Qed.
 
 (* ---- (3) salt: the part about incremental.rs *)
 Theorem C19_salt : forall (Salt : Type) (tree_cache : Salt -> oracle) (salt1 salt2 : Salt),
@@ -103,5 +161,12 @@ Print Assumptions C19_undo_bytes.
 Print Assumptions C19_undo_behaves.
 Print Assumptions C19_append_only.
 Print Assumptions C19_restore_truncates.
+Print Assumptions C19_decode.
+Print Assumptions C19_decode_both.
+Print Assumptions C19_decode_at_rest.
+Print Assumptions C19_done_iff.
+Print Assumptions C19_reach_ok_reach.
+Print Assumptions C19_assemble.
+Print Assumptions C19_decode_witness.
 Print Assumptions C19_salt.
 Print Assumptions C19_witness_history.
